@@ -440,13 +440,18 @@ def run(tier, seed):
                 outcomes[obs.get("kind")] = outcomes.get(obs.get("kind"), 0) + 1
                 max_steps_ratio = max(max_steps_ratio, obs.get("steps_ratio", 0))
                 v = classify(obs, fired, ref)
-                if v and v["class"] == "bindings-changed-by-fault" and fired and \
-                        all(not f[2].startswith(root) for f in fired):
+                outside = [f for f in fired if not f[2].startswith(root)]
+                if v and v["class"] == "bindings-changed-by-fault" and outside:
                     # A failed probe of a *system* header redirects clang's include search
                     # (#include_next falls through to the next directory): a legal, different
-                    # preprocessing result, not bindgen changing bindings behind a fault.
-                    redirected[0] += 1
-                    v = None
+                    # preprocessing result, not bindgen changing bindings behind a fault. The
+                    # bindings must then equal those of a run with only the system-header
+                    # fault(s) applied; anything the sandbox faults add on top is still judged.
+                    only_sys = [p[int(f[0])] for f in outside]
+                    ref2, _ = run_child(req, only_sys, work, f"{sname}-sysref")
+                    if ref2.get("kind") == "ok" and ref2.get("fp") == obs.get("fp"):
+                        redirected[0] += 1
+                        v = None
                 if v:
                     ops = sorted({f"{f[1]}:{os.path.basename(f[2])}" for f in fired})
                     sig = dict(v, fault=ops[0] if ops else "none", tier="plan")
